@@ -530,7 +530,7 @@ class Fn:
             raise NotTranslatable(f"operator {type(op).__name__} on {ta}, {tb}")
         if ta == "Lit" and tb == "Lit":
             import operator
-            f = {ast.Add: operator.add, ast.Sub: operator.sub, ast.Mult: operator.mul, ast.BitAnd: operator.and_,
+            f = {ast.Add: operator.add, ast.Sub: operator.sub, ast.Mult: operator.mul, ast.BitAnd: operator.and_, ast.Pow: operator.pow,
                  ast.BitOr: operator.or_, ast.BitXor: operator.xor, ast.LShift: operator.lshift, ast.RShift: operator.rshift}.get(type(op))
             if f:
                 return const_to_lean(f(int(a), int(b)))
@@ -1576,6 +1576,9 @@ def regenerate(targets=None, check=True):
         except NotTranslatable as e:
             UNAVAILABLE.append(f"{t['module']}.{t['func']}: {e}")
             text = alias_text(str(e).replace("-/", "- /"))
+        except Exception as e:  # noqa: BLE001 - a construct the translator trips over is outside its fragment, never a crash of the check
+            UNAVAILABLE.append(f"{t['module']}.{t['func']}: translator error {type(e).__name__}: {e}")
+            text = alias_text(f"translator error {type(e).__name__}")
         path = os.path.join(OUTDIR, t["file"] + ".lean")
         old = open(path).read() if os.path.exists(path) else None
         if old != text:
